@@ -29,6 +29,7 @@ use octo_squirrel::codec::WebSocketFramed;
 use octo_squirrel::config::ServerConfig;
 use octo_squirrel::config::WebSocketConfig;
 use octo_squirrel::protocol::address::Address;
+use octo_squirrel::protocol::socks5;
 use octo_squirrel::protocol::socks5::codec::Socks5UdpCodec;
 use octo_squirrel::relay;
 use octo_squirrel::relay::End;
@@ -181,6 +182,9 @@ where
 /// it) before it gives that datagram up: the loop serves every local application, a stalled peer must not hold it.
 const OUTBOUND_TIMEOUT: Duration = Duration::from_secs(5);
 
+/// Largest payload of a UDP datagram over IPv4 (65535 - 20 bytes IP header - 8 bytes UDP header).
+const MAX_DATAGRAM_PAYLOAD: usize = 65507;
+
 pub async fn transfer_udp<Context, NewContext, Key, NewKey, Out, NewOut, ToOutSend, ToInRecv, OutRecv, OutSend>(
     inbound: UdpSocket,
     config: ServerConfig<SslConfig>,
@@ -219,6 +223,14 @@ where
             // client->local|mpsc
             Some((item, key)) = client_local_rx.recv() => {
                 client_server_cache.get(&key);
+                // a reply too large for a datagram once its SOCKS5 header is in front must not reach the framed
+                // socket: the failed send would stay in its write buffer and fail every later reply with it
+                let ((content, target), _): &(DatagramPacket, SocketAddr) = &item;
+                let size = 3 + socks5::address::length(target) + content.len();
+                if size > MAX_DATAGRAM_PAYLOAD {
+                    error!("[udp] drop inbound msg of {} bytes, larger than a datagram can carry", size);
+                    continue;
+                }
                 client_local.send(item).await.unwrap_or_else(|e| error!("[udp] failed to send inbound msg; error={}", e));
             }
             // local->client|inbound
